@@ -231,6 +231,10 @@ def run_simulated(spec, config, seed, choices=None, result_file=None, knobs=None
     sim = make_sim(seed, choices=choices, p_stay=knobs.get("p_stay", 0.5), max_steps=max_steps)
     sim.user["feeder_delay"] = knobs.get("feeder_delay", False)
     sim.user["pipe_cap"] = knobs.get("pipe_cap")
+    from checks.c08 import _instrument
+    _instrument()                      # bytecode-level pre-emption points in the parent's callback / loader / consumer code
+    if knobs.get("opcode_plan"):
+        sim.opcode_plan = list(knobs["opcode_plan"])
     sink = ListSinkH()
     quiet_context(sink)
     exp, objs = prebuilt if prebuilt is not None else build_experiment(spec)
@@ -410,4 +414,5 @@ def gen_config(rng):
 
 def gen_knobs(rng):
     return {"feeder_delay": rng.random() < 0.4, "pipe_cap": weighted(rng, [(None, 5), (2, 1)]),
-            "p_stay": weighted(rng, [(0.0, 1), (0.5, 2), (0.9, 2)])}
+            "p_stay": weighted(rng, [(0.0, 1), (0.5, 2), (0.9, 2)]),
+            "opcode_plan": sorted(rng.randrange(1, 1500) for _ in range(1 + rng.randrange(4))) if rng.random() < 0.25 else None}
